@@ -52,7 +52,7 @@ func (l *Logger) Output(calldepth int, s string) error {
 	inSim := simrt.S != nil && simrt.S.Cur() != nil
 	if inSim {
 		l.mu.Lock()
-		defer l.mu.Unlock()
+		defer l.mu.UnlockQuiet()
 	}
 	if len(s) == 0 || s[len(s)-1] != '\n' {
 		s += "\n"
